@@ -1,4 +1,5 @@
-"""C16  after the default face reorientation of a closed mesh all faces point outwards - for every face order, winding and size.
+"""C16  check_selfintersecting reports a self-intersecting mesh exactly when it is (two-part meshes with a symbolic
+interpenetration depth), and after the default face reorientation of a closed mesh all faces point outwards - for every face order, winding and size.
 
 fix_trimesh_orientation -> get_inwards_mask -> is_facet_inwards -> mask_inside_trimesh -> lines_end_in_trimesh are executed
 symbolically for meshes V = s*V0 + t with V0 from a committed list of rational base meshes, s in [1e-9,1e9] and t in R^3
@@ -22,16 +23,23 @@ FUNCTIONS = [
     "magpylib._src.fields.field_BH_triangularmesh:mask_inside_trimesh",
     "magpylib._src.fields.field_BH_triangularmesh:mask_inside_enclosing_box",
     "magpylib._src.fields.field_BH_triangularmesh:lines_end_in_trimesh",
+    "magpylib._src.fields.field_BH_triangularmesh:get_intersecting_triangles",
+    "magpylib._src.fields.field_BH_triangularmesh:segments_intersect_facets",
 ]
 BOUNDS = [
     "base meshes: regular-ish tetrahedron, sliver tetrahedron, triangular prism (8 faces), cube (12 faces), two disjoint tetrahedra with interleaved faces; "
     "vertices V = s*V0 + t with s in [1e-9,1e9], t in R^3 symbolic",
     "tetrahedra: all 16 flip subsets x face orders from a committed list (quick: 2 orders, thorough: all 24); sliver: quick 2 flip subsets; prism / cube: all single "
     "flips and the all-flipped mesh, 2 face orders (quick: 3 flip subsets, 1 order)",
+    "self-intersection: (a) thin spike B (apex c+d*(1,1,1) on the axis through the centroid c of the slanted face of tetrahedron A=4*unit, base 1 further out), "
+    "d in [-1.3,1] symbolic, truth -1<d<0; (b) B = A shifted by d along x, d in [-5,5], truth 0<|d|<4; touching configurations excluded by bands of 1e-5 "
+    "(the code's point tolerance eps is 1e-6); face orders B-first, A-first, interleaved (thorough: + reversed interleaved, one flipped face)",
 ]
-CUTS = []
+CUTS = ["self-intersection cases only: scipy.spatial.KDTree (compiled) is replaced by a stub whose ball query returns every triangle, so the candidate-pair "
+        "filter and the segment/facet tests of get_intersecting_triangles run on all pairs; whether the search radius r_factor*max-extent is large enough to "
+        "contain every intersecting pair is outside the claim", "vertices.astype(float32) is the identity (real arithmetic)"]
 ASSUMPTIONS = ["real arithmetic", "the base meshes are closed and connected (status checks are not the subject here)"]
-NOT_DECIDED = ["check_open, check_disconnected (index combinatorics without a symbolic dimension)", "check_selfintersecting (float32 cast + scipy KDTree, compiled)",
+NOT_DECIDED = ["check_open, check_disconnected (index combinatorics without a symbolic dimension)", "check_selfintersecting beyond the two committed two-part families (spike through a face; two equal tetrahedra shifted along x)",
                "vertex renumbering (the algorithm only sees vertices[faces])"]
 
 S_LO, S_HI = z3.RealVal("1/1000000000"), z3.RealVal(1000000000)
@@ -84,6 +92,12 @@ def cases(tier, seed):
             if tier == "quick" and (oi > 0 or fs not in ([], [2, 5], [1, 3, 4, 6])):
                 continue
             out.append({"id": f"two-tetra-order{oi}-flips{'_'.join(map(str, fs)) or 'none'}", "base": "two-tetra", "order": order, "flips": fs, "weight": 6})
+    for geom in ("spike", "shifted"):
+        for order in SI_ORDERS:
+            for fl in ([], [1]):
+                if tier == "quick" and (order in ("interleaved-rev", "Afirst" if geom == "spike" else "interleaved") or fl):
+                    continue
+                out.append({"id": f"selfintersect-{geom}-{order}" + ("-flip1" if fl else ""), "kind": "selfintersect", "geom": geom, "order": order, "flips": fl, "weight": 8})
     for base in ("prism", "cube"):
         nf = len(BASES[base][1])
         orders = [list(range(nf)), list(range(nf))[::-1]]
@@ -98,6 +112,141 @@ def cases(tier, seed):
     return out
 
 
+# ---------------------------------------------------------------------------- self-intersection families
+A4 = TETRA[0] * 4.0
+BAND = z3.RealVal("1/100000")
+
+
+def _band(e):
+    return z3.Or(e >= BAND, e <= -BAND)
+
+
+def _si_geometry(kind, d):
+    """-> (V (8,3) object array with A first, preconditions on d, truth formula 'the surfaces of A and B intersect')"""
+    from symnum.arr import SymArray
+
+    V = np.empty((8, 3), dtype=object)
+    for i in range(4):
+        for k in range(3):
+            V[i, k] = S(toz(A4[i, k]))
+    if kind == "spike":
+        third = S(z3.RealVal("4/3"))
+        U = np.array([(1, -1, 0), (0, 1, -1), (-1, 0, 1)], dtype=float) * 0.25
+        for k in range(3):
+            V[4, k] = third + d
+            for j in range(3):
+                V[5 + j, k] = third + d + 1 + S(toz(U[j, k]))
+        pre = [d.z >= z3.RealVal("-13/10"), d.z <= 1, _band(d.z), _band(d.z + 1)]
+        truth = z3.And(d.z > -1, d.z < 0)
+    else:  # shifted copy
+        for i in range(4):
+            for k in range(3):
+                V[4 + i, k] = S(toz(A4[i, k])) + (d if k == 0 else 0)
+        pre = [d.z >= -5, d.z <= 5, _band(d.z), _band(d.z - 4), _band(d.z + 4)]
+        truth = z3.And(d.z != 0, d.z > -4, d.z < 4)
+    return V.view(SymArray), pre, truth
+
+
+def _si_geometry_float(kind, dv):
+    V = np.zeros((8, 3))
+    V[:4] = A4
+    if kind == "spike":
+        U = np.array([(1, -1, 0), (0, 1, -1), (-1, 0, 1)], dtype=float) * 0.25
+        V[4] = 4 / 3 + dv
+        V[5:] = 4 / 3 + dv + 1 + U
+        return V, (-1 < dv < 0)
+    V[4:] = A4 + np.array([dv, 0, 0])
+    return V, (dv != 0 and -4 < dv < 4)
+
+
+F_A = [list(f) for f in TETRA[1]]
+F_B = [[i + 4 for i in f] for f in TETRA[1]]
+SI_ORDERS = {"Bfirst": F_B + F_A, "Afirst": F_A + F_B, "interleaved": [f for ab in zip(F_A, F_B) for f in ab],
+             "interleaved-rev": [f for ab in zip(F_B[::-1], F_A[::-1]) for f in ab]}
+
+
+def _si_faces(case):
+    faces = [list(f) for f in SI_ORDERS[case["order"]]]
+    for k in case.get("flips", []):
+        faces[k] = [faces[k][0], faces[k][2], faces[k][1]]
+    return np.array(faces, dtype=int)
+
+
+class _AllPairsTree:
+    """stands in for scipy.spatial.KDTree: every triangle is a candidate neighbour of every triangle"""
+
+    def __init__(self, centers, *a, **k):
+        self.n = len(centers)
+
+    def query_ball_point(self, pts, r, **k):
+        return [np.arange(self.n) for _ in range(len(pts))]
+
+
+def _run_selfintersect(case, info):
+    import types
+
+    from symnum import install
+    from magpylib._src.fields import field_BH_triangularmesh as TM
+
+    C = Case(case, info)
+    install.patch("magpylib._src.fields.field_BH_triangularmesh", "scipy", types.SimpleNamespace(spatial=types.SimpleNamespace(KDTree=_AllPairsTree)))
+    d = sym("d")
+    V, pre, truth = _si_geometry(case["geom"], d)
+    CTX.pre = list(pre)
+    faces = _si_faces(case)
+    rp = {"kind": "selfintersect", "geom": case["geom"], "order": case["order"], "flips": case.get("flips", [])}
+
+    def run():
+        try:
+            return TM.get_intersecting_triangles(V, faces.copy())
+        except Exception as e:  # noqa
+            return e
+
+    def on_path(p):
+        C.paths += 1
+        if p.status != "ok":
+            C.note_inconclusive(f"p{C.paths}", f"aborted: {p.out}")
+            return
+        if isinstance(p.out, Exception):
+            C.oblige(f"p{C.paths}.raise-witness", p.pc, z3.BoolVal(True), inputs=[d], key="C16|get_intersecting_triangles|raises",
+                     on_model=lambda env: {"key": "C16|get_intersecting_triangles|raises", "replay": dict(rp, env=env)})
+            return
+        reported = len(np.asarray(p.out)) > 0
+        neg = z3.Not(truth) if reported else truth
+        C.oblige(f"p{C.paths}.reported[{reported}]==intersecting", p.pc, neg, inputs=[d], key=f"C16|get_intersecting_triangles|{'false-positive' if reported else 'missed'}",
+                 on_model=lambda env: {"key": f"C16|get_intersecting_triangles|{'false-positive' if reported else 'missed'}", "replay": dict(rp, env=env)})
+        if len(C.samples) < 2:
+            C.samples.append({"case": case["id"], "what": f"path reporting intersecting triangles {np.asarray(p.out).tolist()}: feasible only for d with truth={reported}"})
+
+    seeds = [{"d": -0.5}, {"d": 0.5}, {"d": -1.2}] if case["geom"] == "spike" else [{"d": 1.0}, {"d": -2.5}, {"d": 4.5}, {"d": -4.5}]
+    paths = explore(run, max_paths=60 if C.tier == "quick" else 400, on_path=on_path, seeds=seeds)
+    C.decisions += sum(len(p.decisions) for p in paths)
+    if explore.truncated:
+        C.note_inconclusive("path-budget", "path budget hit")
+    return C.result()
+
+
+def _replay_selfintersect(spec):
+    import warnings
+
+    import magpylib as m
+
+    dv = float((spec.get("env") or {}).get("d") or 0.0)
+    V, truth = _si_geometry_float(spec["geom"], dv)
+    faces = _si_faces(spec)
+    with warnings.catch_warnings():
+        warnings.simplefilter("ignore")
+        try:
+            tm = m.magnet.TriangularMesh(vertices=V, faces=faces, polarization=(0, 0, 1), reorient_faces=False,
+                                         check_open="ignore", check_disconnected="ignore", check_selfintersecting="ignore")
+            tm.check_selfintersecting(mode="ignore")
+            got = bool(tm.status_selfintersecting)
+        except Exception as e:  # noqa
+            return True, f"TriangularMesh / check_selfintersecting raised {type(e).__name__}: {e}"
+    return got != truth, (f"two-part mesh '{spec['geom']}' with d={dv!r}, face order {spec['order']}, flipped {spec.get('flips', [])}: "
+                          f"status_selfintersecting={got}, but the parts {'do' if truth else 'do not'} intersect")
+
+
 def _faces(case):
     V0, F = BASES[case["base"]]
     faces = [list(F[i]) for i in case["order"]]
@@ -109,6 +258,8 @@ def _faces(case):
 def run_case(case, info):
     from magpylib._src.fields import field_BH_triangularmesh as TM
 
+    if case.get("kind") == "selfintersect":
+        return _run_selfintersect(case, info)
     C = Case(case, info)
     CTX.decide_timeout = 2000  # `unknown` feasibility is treated as feasible anyway; the ray-cast conditions are sqrt-heavy
     V0, faces = _faces(case)
@@ -159,6 +310,8 @@ def replay(spec):
 
     import magpylib as m
 
+    if spec.get("kind") == "selfintersect":
+        return _replay_selfintersect(spec)
     V0, faces = _faces(spec)
     env = spec.get("env") or {}
     s = float(env.get("s") or 1.0)
